@@ -252,6 +252,43 @@ def work(arg: tuple) -> dict:
             if got[0] != fresh[e[0]][0] or got[2] != fresh[e[0]][2] or got[1] != fresh[e[0]][1]:
                 report('run-differs-from-fresh-chart',
                        f'after {[h[0] for h in hist[:-1]]}, run {e[0]}: {got[0]} on the shared chart, {fresh[e[0]][0]} on a fresh chart (differential pass)', list(hist))
+    # --- persistent-store pass: the caller omits pipeline_id (as in the documented usage) and the chart's artifact store is
+    # write-once and outlives the runs, keyed like the filesystem store by (pipeline id, node id): run k must still behave
+    # like the first run of a fresh chart with an empty store, and no two runs may get the same generated id
+    pc = {'store': 'rec', 'omit_pipeline_id': True}
+
+    def prun(chart, e: tuple, persist: dict):
+        case = X.Case(spec, [e[1]], inputs=[e[2]], collab=dict(pc))
+        return X.execute(case, chart=chart, policy=e[3], world_hook=lambda w, lp: setattr(w, 'persist', persist))
+
+    psmall = small[:3]
+    pfresh = {}
+    for e in psmall:
+        codegen.unload(spec)
+        x = prun(codegen.chart(spec, pc), e, {})
+        out['runs'] += 1
+        pfresh[e[0]] = (M.outcome_class(x), x.status)
+    for L in range(2, depth + 1):
+        for hist in itertools.product(psmall, repeat=L):
+            if len(out['viol']) >= 3:
+                break
+            codegen.unload(spec)
+            chart = codegen.chart(spec, pc)
+            persist: dict = {}
+            ids = []
+            for e in hist:
+                x = prun(chart, e, persist)
+                out['runs'] += 1
+                ids += [pid for _, pid in x.world.pipeline_ids]
+            out['transitions'] += 1
+            e = hist[-1]
+            got = (M.outcome_class(x), x.status)
+            if got != pfresh[e[0]]:
+                report('run-differs-from-fresh-chart',
+                       f'after {[h[0] for h in hist[:-1]]} with a persistent write-once store and pipeline_id omitted, run {e[0]}: {got[0]}; '
+                       f'{pfresh[e[0]][0]} on a fresh chart with an empty store', list(hist))
+            if len(set(ids)) != len(ids) or len(ids) != L:
+                report('pipeline-id-reused', f'generated pipeline ids of {L} runs on one chart: {len(set(ids))} distinct of {len(ids)}', list(hist))
     out['sample'] = dict(family=fam, spec=spec, alphabet=[a[0] for a in alpha], snapshot_states=len(seen))
     codegen.unload(spec)
     return out
